@@ -237,6 +237,13 @@ class Token(MutableSequence[TK]):
             return cast(str, self.value)
         elif symbol == '(decimal)':
             return str(self.value)
+        elif symbol == '(string)' and isinstance(self.value, str):
+            # a literal of the language: a quote inside the literal is doubled, nothing else is escaped
+            if "'" not in self.value:
+                return f"'{self.value}'"
+            elif '"' not in self.value:
+                return f'"{self.value}"'
+            return "'%s'" % self.value.replace("'", "''")
         elif symbol in SPECIAL_SYMBOLS:
             return repr(self.value).replace(r'\\', '\\')
         else:
